@@ -79,7 +79,9 @@ func ToCatalog(rows []any, ident string, identRight string, joinExpr sqlparser.E
 			}
 			// every component is written with its length in front: the key columns
 			// ("a-", "") and ("a", "-") must not produce the same bytes
-			text := fmt.Sprintf("%v", reader)
+			// the decimal text of the value, as the comparison operators use it for a
+			// number against a string: %v would write float64(1500000) as 1.5e+06
+			text := TextOf(reader)
 			buffer.WriteString(fmt.Sprintf("%d:", len(text)))
 			buffer.WriteString(text)
 			mapper[mappedColumns[column]] = reader
